@@ -1296,6 +1296,9 @@ class Executor:
         name = type(op).__name__
         if name in ('Eq', 'NotEq') and isinstance(a, PyFn) and isinstance(b, PyFn):
             return (a is b) if name == 'Eq' else (a is not b)      # type objects / builtins compare by identity
+        if name in ('Eq', 'NotEq') and (isinstance(a, (PyFn, Closure, FuncRef)) != isinstance(b, (PyFn, Closure, FuncRef))) and \
+                (is_scalar(a) or is_scalar(b) or a is None or b is None or isinstance(a, str) or isinstance(b, str)):
+            return name == 'NotEq'                                  # a function object never equals a number, None or a string
         inf_a, inf_b = _inf_sign(a), _inf_sign(b)
         if (inf_a or inf_b) and name in ('Eq', 'NotEq', 'Lt', 'LtE', 'Gt', 'GtE') and all(x or (is_scalar(y) and not isinstance(y, bool)) for x, y in ((inf_a, a), (inf_b, b))):
             va = inf_a * 2 if inf_a else 0      # any finite real lies strictly between -inf and +inf
@@ -2417,12 +2420,26 @@ class Executor:
             out += self._flat_leaves(i) if isinstance(i, VList) else [i]
         return out
 
+    def _truth_formula(self, c):
+        """truth value of one array element as a formula: booleans as they are, numbers as `!= 0` (numpy.any / numpy.all on numeric arrays)"""
+        c = exact(c)
+        if isinstance(c, bool):
+            return z3.BoolVal(c)
+        if isinstance(c, (int, float, Fraction)):
+            return z3.BoolVal(c != 0)
+        if isinstance(c, z3.ExprRef):
+            return c if z3.is_bool(c) else c != 0
+        if isinstance(c, Tm):
+            return named_bool('truth(%s)' % vrepr(c))
+        z = to_z3(c)
+        return z if z3.is_bool(z) else z != 0
+
     def np_any(self, x):
         if isinstance(x, VList):
             leaves = self._flat_leaves(x)
             if all(isinstance(c, bool) for c in leaves):
                 return any(leaves)
-            cs = [to_z3(c) if not isinstance(c, bool) else z3.BoolVal(c) for c in leaves]
+            cs = [self._truth_formula(c) for c in leaves]
             return z3.simplify(z3.Or(cs)) if cs else False
         if isinstance(x, Tm):
             return named_bool('any(%s)' % vrepr(x))
@@ -2433,7 +2450,7 @@ class Executor:
             leaves = self._flat_leaves(x)
             if all(isinstance(c, bool) for c in leaves):
                 return all(leaves)
-            cs = [to_z3(c) if not isinstance(c, bool) else z3.BoolVal(c) for c in leaves]
+            cs = [self._truth_formula(c) for c in leaves]
             return z3.simplify(z3.And(cs)) if cs else True
         if isinstance(x, Tm):
             return named_bool('all(%s)' % vrepr(x))
